@@ -1,12 +1,21 @@
 // Correspondence harness for C21 (instant based procedures): drives the REAL
 // bluetoe::link_layer::link_layer<> on tests/test_tools/test_radio, one connection event per op.
 //
-//   reset <cfg> <latency> <counter> <hop>
+//   reset <cfg> <latency> <counter> <hop> [<timeout>]
 //          new link layer (cfg 0: peripheral_latency_configuration<> = use the full peripheral
 //          latency, cfg 1: peripheral_latency_ignored = listen always), CONNECT_IND with the given
 //          peripheral latency and hop, first connection event (an empty PDU) performed, then the
 //          16-bit connEventCounter of the *planned* event is set to <counter> (a harness device to
 //          reach the wrap-around without simulating 65536 events).
+//          <timeout>: connSupervisionTimeout of the CONNECT_IND in 10 ms (default 3200).
+//   connect <latency> <counter> <hop> <timeout>
+//          only while advertising (after the connection ended): a new CONNECT_IND on the SAME link
+//          layer object, first connection event performed, counter set as for `reset`.
+//   disconnect           three connection events with empty PDUs take place (responses still queued are
+//          sent, time_since_last_event is that of a regular event: the moment the LL_TERMINATE_IND is
+//          acknowledged and the procedure response timer are then independent of the history), then the
+//          local host calls disconnect() and connection events with empty PDUs take place until the
+//          LL_TERMINATE_IND is sent and acknowledged and the link layer advertises again
 //   ev [<hex-pdu> ...]   the planned connection event takes place, the central sends the given
 //          PDUs (2 byte LL header + payload; none = one empty PDU)
 //   to                   the planned connection event is lost (no reception = timeout())
@@ -62,7 +71,9 @@ typedef bluetoe::server<
 struct ll_if
 {
     virtual ~ll_if() {}
-    virtual void connect( unsigned latency, unsigned counter, unsigned hop ) = 0;
+    virtual void connect( unsigned latency, unsigned counter, unsigned hop, unsigned timeout ) = 0;
+    virtual bool is_connected() = 0;
+    virtual std::string local_disconnect() = 0;
     virtual std::string event( const std::vector< std::vector< std::uint8_t > >& pdus ) = 0;
     virtual std::string lost() = 0;
     virtual std::string state() = 0;
@@ -87,8 +98,31 @@ struct link : ll::link_layer< server_t, test::radio_with_2mbit, Options... >, ll
         base::run();
     }
 
-    void connect( unsigned latency, unsigned counter, unsigned hop ) override
+    bool is_connected() override { return connected(); }
+
+    std::string local_disconnect() override
     {
+        if ( !connected() )
+            return state_line();
+
+        for ( int i = 0; i != 3 && connected(); ++i )
+            event( std::vector< std::vector< std::uint8_t > >() );
+
+        if ( !connected() )
+            return state_line();
+
+        this->disconnect();
+        for ( int i = 0; i != 60 && connected(); ++i )
+            event( std::vector< std::vector< std::uint8_t > >() );
+
+        return state_line();
+    }
+
+    void connect( unsigned latency, unsigned counter, unsigned hop, unsigned timeout ) override
+    {
+        // a new connection starts with SN = NESN = 0 on both sides
+        this->central_sequence_number_    = 0;
+        this->central_ne_sequence_number_ = 0;
         this->end_of_simulation( ll::delta_time::seconds( 2000 ) );
         this->respond_to( 37, {
             0xc5, 0x22,
@@ -100,7 +134,7 @@ struct link : ll::link_layer< server_t, test::radio_with_2mbit, Options... >, ll
             0x0b, 0x00,
             0x18, 0x00,                                     // interval 30 ms
             static_cast< std::uint8_t >( latency ), static_cast< std::uint8_t >( latency >> 8 ),
-            0x80, 0x0c,                                     // supervision timeout 32 s
+            static_cast< std::uint8_t >( timeout ), static_cast< std::uint8_t >( timeout >> 8 ),
             0xff, 0xff, 0xff, 0xff, 0x1f,
             static_cast< std::uint8_t >( 0xa0 | hop ) } );
 
@@ -302,13 +336,28 @@ int main()
             if ( verif::parse_u64( w[ i ], v ) ) n.push_back( v ); else numeric = false;
         }
 
-        if ( w[ 0 ] == "reset" && numeric && n.size() == 4 )
+        // the CONNECT_IND must be one the link layer accepts: interval is 24 (30 ms)
+        const auto acceptable = []( unsigned long long latency, unsigned long long counter, unsigned long long hop, unsigned long long timeout ) {
+            return latency <= 499 && counter <= 0xffff && hop >= 5 && hop <= 16 && timeout >= 10 && timeout <= 3200
+                && timeout * 10000 > ( latency + 1 ) * 2 * 30000;
+        };
+
+        if ( w[ 0 ] == "reset" && numeric && ( n.size() == 4 || n.size() == 5 ) )
         {
-            if ( n[ 0 ] > 1 || n[ 1 ] > 499 || n[ 2 ] > 0xffff || n[ 3 ] < 5 || n[ 3 ] > 16 ) return "bad-op";
+            const unsigned long long timeout = n.size() == 5 ? n[ 4 ] : 3200;
+            if ( n[ 0 ] > 1 || !acceptable( n[ 1 ], n[ 2 ], n[ 3 ], timeout ) ) return "bad-op";
             link_layer = make( n[ 0 ] );
-            link_layer->connect( n[ 1 ], n[ 2 ], n[ 3 ] );
+            link_layer->connect( n[ 1 ], n[ 2 ], n[ 3 ], timeout );
             return link_layer->state();
         }
+        if ( w[ 0 ] == "connect" && numeric && n.size() == 4 && link_layer )
+        {
+            if ( link_layer->is_connected() || !acceptable( n[ 0 ], n[ 1 ], n[ 2 ], n[ 3 ] ) ) return "bad-op";
+            link_layer->connect( n[ 0 ], n[ 1 ], n[ 2 ], n[ 3 ] );
+            return link_layer->state();
+        }
+        if ( w[ 0 ] == "disconnect" && w.size() == 1 && link_layer )
+            return link_layer->local_disconnect();
         if ( w[ 0 ] == "ev" && link_layer )
         {
             std::vector< std::vector< std::uint8_t > > pdus;
